@@ -13,7 +13,7 @@ SCEN2 = {"Sc_TofuSame": "none", "Sc_TofuFork": "none", "Sc_TofuSizes": "none", "
          "Sc_GrowBad": "s1", "Sc_GrowLogs": "s1", "Sc_GrowRead": "s1", "Sc_Chain": "s1"}
 SCEN3 = {"Sc3_TofuForkRead": "none", "Sc3_TofuTofuTofu": "none", "Sc3_GrowForkRead": "s1", "Sc3_GrowGrowGrow": "s1", "Sc3_GrowRefRead": "s1"}
 SCEN4 = {"Sc4_Tofu4": "none", "Sc4_Grow4": "s1", "Sc4_GrowReaders": "s1"}
-HIST = {"H_Tofu": "none", "H_TofuGrow": "none", "H_TofuRefresh": "none", "H_TofuForkGrow": "none", "H_TofuBadGrow": "none", "H_Grow": "s1", "H_GrowGrow": "s1"}
+HIST = {"H_ZeroRefresh": "none", "H_TofuReadGrow": "none", "H_Tofu": "none", "H_TofuGrow": "none", "H_TofuRefresh": "none", "H_TofuForkGrow": "none", "H_TofuBadGrow": "none", "H_Grow": "s1", "H_GrowGrow": "s1"}
 
 
 def nprocs(name):
